@@ -16,7 +16,7 @@ tvars == <<vars, tid, pos, verdict>>
 Ev == Traces[tid][pos]
 D(r) == Dec(r.neg, r.digs, r.e)
 
-OptOf(o) == [api |-> o.api, impl |-> o.impl, fsty |-> o.fsty, xty |-> o.xty, uname |-> o.uname, tbl |-> o.tbl,
+OptOf(o) == [api |-> o.api, impl |-> o.impl, fsty |-> o.fsty, xty |-> o.xty, uname |-> o.uname, tbl |-> o.tbl, pset |-> o.pset,
              ucv |-> IF o.ucv.from = "" THEN NoConv ELSE ConvOf(o.ucv.from, o.ucv.to)]
 TraceSlice == [Signs |-> {}, Sigs |-> {}, Exps |-> {}, Precs |-> {}, UncSigs |-> {}, UncOffs |-> {}, UncPrecs |-> {},
                Units |-> {}, Convs |-> {}, UncSrcs |-> {}, RomanMax |-> 0, Opts |-> {}, RomanTypes |-> {}]
